@@ -10,8 +10,8 @@ from ..core import floats
 
 ID = "C07"
 THREADS = True       # part of the cases run concurrently in threads of one interpreter (the schedule dimension)
-MODULES = ["TWV.Tie.ArrayHelpers", "TWV.Properties.RfaImp", "TWV.Tie.RfaLoops", "TWV.Properties.C07", "TWV.Tie.Funfit"]
-TRANSLATORS = ["t8_arrays", "t4_rfaloops", "t1_funfit"]
+MODULES = ["TWV.Tie.ArrayHelpers", "TWV.Properties.RfaImp", "TWV.Tie.RfaLoops", "TWV.Properties.C07", "TWV.Tie.Funfit", "TWV.Tie.RfaParams"]
+TRANSLATORS = ["t8_arrays", "t4_rfaloops", "t1_funfit", "t12_rfaparams"]
 RULE = ("metamorphic pairs/triples of <Strategy>(...).rfa() runs over all six strategies: y -> a*y+b (generic dyadic a != 0, b "
         "for non-adaptive strategies; power-of-two a and integer b on integer-valued series for the adaptive ones), "
         "x -> c*x+d (c > 0), a change of one average (locality footprint: 1 neighbour, 2 for adaptive), and a convex mix of "
